@@ -16,8 +16,8 @@ for pid in ids:
         thorough_cmd=f"./check.py {pid} --tier thorough",
         evidence_file=f"/verif/evidence/{pid}.json",
         replay_cmd_template="cat {path}",
-        engine="KX" if any(x.startswith("kani:") for x in P["units_quick"]) else "VX",
-        level_claimed=dict(category="proof", text=P['claim'], design_ref=P.get('design_ref', 'DESIGN.md section 3')),
+        engine="KX" if any(x.startswith("kani:") for x in P["units_quick"]) else ("SX" if any(x.startswith("symx:") for x in P["units_quick"]) else "VX"),
+        level_claimed=dict(category=P.get("category", "proof"), text=P['claim'], design_ref=P.get('design_ref', 'DESIGN.md section 3')),
         level_note="; ".join(P.get('assumptions', [])) + ("; NOT covered: " + "; ".join(P['not_covered']) if P.get('not_covered') else ''),
         technique=P.get('technique', "contract-based deductive verification: Verus contracts woven onto the real functions sliced from rustc's expansion of /repo; generated ring/tracking proofs checked by Verus"),
     ))
@@ -26,7 +26,9 @@ m = dict(
     setup_cmd="sh tools/setup.sh",
     hooks=dict(guard="algorand_pairing_plus_verif", enable="--cfg algorand_pairing_plus_verif (passed to rustc by vx/driver.py when expanding the crate)",
                baseline_off_cmd="cd /repo && cargo test --workspace --no-fail-fast --offline", source_commits=props.HOOK_COMMITS, add_only=True),
-    engines=[dict(name="KX", path="/verif/kani", serves_properties=[c['property_id'] for c in checks if c['engine'] == 'KX'],
+    engines=[dict(name="SX", path="/verif/vx/symiso.py", serves_properties=[c['property_id'] for c in checks if c['engine'] == 'SX'],
+                  kind_free_text="symbolic execution of real bodies compiled against a symbolic ring + polynomial normal form (C16 only; labelled, not a deductive proof)"),
+             dict(name="KX", path="/verif/kani", serves_properties=[c['property_id'] for c in checks if c['engine'] == 'KX'],
                   kind_free_text="Kani/CBMC harnesses over the compiled crate for limb-level contracts (full input domain, unwinding assertions on)"),
              dict(name="VX", path="/verif/vx", serves_properties=[c['property_id'] for c in checks],
                   kind_free_text="Verus on real functions mechanically sliced from rustc -Zunpretty=expanded of /repo's working tree; proof generators (ring tactic, scalar/exponent tracking) are untrusted, Verus checks their output")],
